@@ -120,7 +120,8 @@ CHECKS = {
         ref="7 (C13)"),
     "C14": dict(
         text="Lean 4 proof (full except TreeBandit): fit_binarizer_once / partialFit_binarizer_once for every binarizer function, "
-             "np_binarize_once (neighbourhood policies convert on arrival and never again), addArm_new_binarizer; "
+             "np_binarize_once (neighbourhood policies convert on arrival and never again), addArm_new_binarizer, "
+             "run_binarizer_once (every history of fit/partial_fit/add_arm/remove_arm: full-state equality with the binarizer-free twin on the once-converted history); "
              "tree_binarizer_twice_counterexample witnesses known finding K2. Correspondence with arm-dependent and non-idempotent "
              "binarizers under every neighbourhood policy; twin binarizer vs pre-converted rewards.",
         ref="7 (C14)"),
